@@ -251,3 +251,126 @@ Example C19_nonvacuous_check_case :
   check_case (2%nat, -1 # 1, 0, 1 # 2, [OLearn 0 (1 # 1) false (3 # 4) 1]) = false /\
   check_case (2%nat, -1 # 1, 0, 1 # 2, [OLearn 0 (1 # 1) false (1 # 1) 1; OPolicy (1 # 3) None false 1]) = false.
 Proof. vm_compute. auto. Qed.
+
+(* ================================================================== round 4 (generator sweep) *)
+(* ---------------------------------------------------------------- alpha / eps reassigned between calls *)
+(* The call made while `al` is in force follows the rule for `al`, whatever values were in force before it. *)
+Theorem C19_rule_uses_alpha_in_force : forall tr al a r s,
+  (a < length (qs s))%nat -> (a < length (cnts s))%nat ->
+  let s' := run_learn_v s tr in
+  nth a (cnts (run_learn_v s (tr ++ [(al, (a, r))]))) 0%nat = S (nth a (cnts s') 0%nat) /\
+  nth a (qs (run_learn_v s (tr ++ [(al, (a, r))]))) 0
+  == nth a (qs s') 0 + step_of al (nth a (cnts s') 0%nat) * (r - nth a (qs s') 0).
+Proof. exact learn_v_last_rule. Qed.
+Print Assumptions C19_rule_uses_alpha_in_force.
+
+(* stretches of calls compose, and a stretch under one alpha is run_learn: the closed forms above apply to each
+   stretch from the state the earlier ones left (they are stated from ANY state) *)
+Theorem C19_stretches_compose : forall t1 s t2, run_learn_v s (t1 ++ t2) = run_learn_v (run_learn_v s t1) t2.
+Proof. exact run_learn_v_app. Qed.
+Print Assumptions C19_stretches_compose.
+
+Theorem C19_constant_stretch : forall alpha tr s, run_learn_v s (map (fun ar => (alpha, ar)) tr) = run_learn alpha s tr.
+Proof. exact run_learn_v_const. Qed.
+Print Assumptions C19_constant_stretch.
+
+Theorem C19_count_is_visits_any_alphas : forall a tr s, (a < length (cnts s))%nat ->
+  nth a (cnts (run_learn_v s tr)) 0%nat = (nth a (cnts s) 0%nat + length (rewards_of_v a tr))%nat.
+Proof. exact count_is_visits_v. Qed.
+Print Assumptions C19_count_is_visits_any_alphas.
+
+Theorem C19_unvisited_unchanged_any_alphas : forall a tr s, rewards_of_v a tr = [] ->
+  nth a (qs (run_learn_v s tr)) 0 = nth a (qs s) 0.
+Proof. exact unvisited_unchanged_v. Qed.
+Print Assumptions C19_unvisited_unchanged_any_alphas.
+
+Theorem C19_loop_with_constant_attributes : forall alpha eps draws s rewards,
+  replay_v s (map (fun d => ((alpha, eps), d)) draws) rewards = replay alpha eps s draws rewards.
+Proof. exact replay_v_const. Qed.
+Print Assumptions C19_loop_with_constant_attributes.
+
+Theorem C19_loop_actions_in_range_any_attributes : forall rounds s rewards, wf s -> (0 < n_act s)%nat ->
+  Forall (fun x => (snd (snd x) < n_act s)%nat) rounds ->
+  Forall (fun a => (a < n_act s)%nat) (replay_v s rounds rewards).
+Proof. exact replay_v_in_range. Qed.
+Print Assumptions C19_loop_actions_in_range_any_attributes.
+
+(* a round played while the eps in force is not above the draw (eps = 0: always) picks a maximal estimate *)
+Theorem C19_round_greedy_under_eps_in_force : forall s al ep d ds r rs, ep <= fst d -> qs s <> [] ->
+  exists a, replay_v s (((al, ep), d) :: ds) (r :: rs) = a :: replay_v (learn al s a r) ds rs /\
+            (a < length (qs s))%nat /\ (forall j, (j < length (qs s))%nat -> nth j (qs s) 0 <= nth a (qs s) 0).
+Proof. exact replay_v_greedy_round. Qed.
+Print Assumptions C19_round_greedy_under_eps_in_force.
+
+(* ---------------------------------------------------------------- env.step / env.reset *)
+Theorem C19_step_end_marker_keeps_reference : forall ref, env_step true ref None = (Ok (0, true), ref).
+Proof. exact step_end_keeps_reference. Qed.
+Print Assumptions C19_step_end_marker_keeps_reference.
+
+Theorem C19_step_is_get_reward : forall ref loss,
+  env_step true ref (Some loss) =
+  (match fst (get_reward ref loss) with Ok r => Ok (r, false) | Raise e => Raise e end, snd (get_reward ref loss)).
+Proof. exact step_is_get_reward. Qed.
+Print Assumptions C19_step_is_get_reward.
+
+Theorem C19_step_invalid_action_changes_nothing : forall ref msg, env_step false ref msg = (Raise OtherError, ref).
+Proof. exact step_invalid_action. Qed.
+Print Assumptions C19_step_invalid_action_changes_nothing.
+
+Theorem C19_env_reset_keeps_reference : forall ref, env_reset ref = ref.
+Proof. exact env_reset_keeps_reference. Qed.
+Print Assumptions C19_env_reset_keeps_reference.
+
+(* over any number of sessions the reference is the running minimum of the losses: end markers do not touch it *)
+Theorem C19_reference_across_sessions : forall msgs ref, snd (env_steps ref msgs) = snd (env_run ref (losses_of msgs)).
+Proof. exact env_steps_reference. Qed.
+Print Assumptions C19_reference_across_sessions.
+
+Theorem C19_reference_is_running_min_across_sessions : forall msgs c0,
+  Forall is_ok (fst (env_run (Some c0) (losses_of msgs))) ->
+  snd (env_steps (Some c0) msgs) = Some (running_min c0 (losses_of msgs)).
+Proof. exact env_steps_running_min. Qed.
+Print Assumptions C19_reference_is_running_min_across_sessions.
+
+(* the extended correspondence checker agrees with the first one on sequences without the new operations *)
+Theorem C19_extended_checker_conservative : forall n alpha eps init ops,
+  check_xcase (n, alpha, eps, init, map XOp ops) = check_case (n, alpha, eps, init, ops).
+Proof. exact check_xcase_conservative. Qed.
+Print Assumptions C19_extended_checker_conservative.
+
+(* ---------------------------------------------------------------- non-vacuity (round 4) *)
+(* alpha 1/2 for one call on action 1, then the sample-average sentinel: from (count 1, estimate 5) the reward 9
+   gives 5 + 1/2 (9 - 5) = 7 *)
+Example C19_nonvacuous_alpha_in_force :
+  let s := run_learn_v (init_agent 2 (8 # 1)) [(1 # 2, (1%nat, 2 # 1)); (-1 # 1, (1%nat, 9 # 1)); (1 # 2, (0%nat, 0))] in
+  Qeq_bool (nth 1 (qs s) 0) (7 # 1) = true /\ Qeq_bool (nth 0 (qs s) 0) (4 # 1) = true /\ cnts s = [1; 2]%nat.
+Proof. vm_compute. auto. Qed.
+
+(* two sessions: 5 -> 3 (reward 2/5), end marker, 4 (no improvement), 1 (reward 2/3): reference 1 *)
+Example C19_nonvacuous_sessions :
+  let msgs := [Some (3 # 1); None; Some (4 # 1); Some (1 # 1)] in
+  snd (env_steps (Some (5 # 1)) msgs) = Some (1 # 1) /\ losses_of msgs = [3 # 1; 4 # 1; 1 # 1] /\
+  nth 1 (fst (env_steps (Some (5 # 1)) msgs)) (Raise OtherError) = Ok (0, true) /\
+  env_step false (Some (5 # 1)) (Some (3 # 1)) = (Raise OtherError, Some (5 # 1)).
+Proof. vm_compute. auto. Qed.
+
+(* the extended checker accepts a faithful observation with reassigned attributes and rejects one that kept the
+   constructor's alpha, one that kept the old estimates, and a step that lost the reference at the end marker *)
+Example C19_nonvacuous_check_xcase :
+  check_xcase (2%nat, -1 # 1, 0, 1 # 2,
+               [XOp (OLearn 0 (1 # 1) false (1 # 1) 1); XSetAlpha (1 # 2); XOp (OLearn 0 0 false (1 # 2) 2);
+                XSetQ [0; 3 # 1]; XSetC [5; 1]%nat; XOp (OPolicy (1 # 3) None false 1);
+                XSetAlpha (-1 # 1); XOp (OLearn 1 (1 # 1) false (2 # 1) 2);
+                XSetEps (1 # 2); XOp (OPolicy (1 # 3) (Some 0%nat) false 0);
+                XOp (OSetRef (Some (2 # 1))); XStep true (Some (1 # 1)) None (1 # 2) false (Some (1 # 1));
+                XStep true None None 0 true (Some (1 # 1)); XEnvReset;
+                XStep true (Some (1 # 2)) None (1 # 2) false (Some (1 # 2));
+                XStep false (Some (1 # 4)) (Some OtherError) 0 false (Some (1 # 2))]) = true /\
+  check_xcase (2%nat, -1 # 1, 0, 1 # 2,
+               [XOp (OLearn 0 (1 # 1) false (1 # 1) 1); XSetAlpha (1 # 2); XOp (OLearn 0 0 false (1 # 2) 2)]) = true /\
+  check_xcase (2%nat, -1 # 1, 0, 1 # 2,
+               [XOp (OLearn 0 (1 # 1) false (1 # 1) 1); XSetAlpha (1 # 4); XOp (OLearn 0 0 false (1 # 2) 2)]) = false /\
+  check_xcase (2%nat, -1 # 1, 0, 1 # 2, [XSetQ [0; 3 # 1]; XOp (OPolicy (1 # 3) None false 0)]) = false /\
+  check_xcase (2%nat, -1 # 1, 0, 1 # 2,
+               [XOp (OSetRef (Some (2 # 1))); XStep true None None 0 true None]) = false.
+Proof. vm_compute. auto. Qed.
